@@ -15,6 +15,9 @@ Definition qsolve_tot (A B : qm) : qm := match qsolve A B with Some X => X | Non
 (* ---------------------------------------------------------------------------------------------- offline fit *)
 Inductive nkind :=
 | NFwd (k : kind (F:=Q)) (odim : nat)              (* a forward node: Reservoir / Input / Concat / custom function *)
+| NFwdFb (k : kind (F:=Q)) (odim fbdim : nat)      (* a reservoir with a feedback connection from an UNFITTED offline readout,
+                                                      trained with force_teachers=False: what it receives at every step is the
+                                                      sender's own state, zeros((1, fbdim)) *)
 | NRidge (bias : bool) (lam : Q) (dout : nat).     (* Ridge(ridge=lam, input_bias=bias) *)
 
 (* np.hstack per timestep of several datasets *)
@@ -23,20 +26,20 @@ Definition hcat2 (a b : qd) : qd :=
 Definition hcats (l : list qd) : qd := match l with [] => [] | d :: r => fold_left hcat2 r d end.
 
 (* Node.run row by row from state s *)
-Fixpoint run_seq (k : kind (F:=Q)) (s : qv) (h : hidden) (rows : qm) : qm * (qv * hidden) :=
+Fixpoint run_seq (k : kind (F:=Q)) (fb : option qv) (s : qv) (h : hidden) (rows : qm) : qm * (qv * hidden) :=
   match rows with
   | [] => ([], (s, h))
-  | x :: r => match kfwd k s h x None with
-              | Some (s', h') => let '(o, f) := run_seq k s' h' r in (s' :: o, f)
+  | x :: r => match kfwd k s h x fb with
+              | Some (s', h') => let '(o, f) := run_seq k fb s' h' r in (s' :: o, f)
               | None => ([], (s, h))
               end
   end.
 (* one node over the sequences of the dataset, in order: the state is carried from one sequence to the next
    (Model.fit default stateful=True, reset=False) or zeroed at the start of each (reset=True) *)
-Fixpoint run_data (k : kind (F:=Q)) (reset : bool) (z : qv) (sh : qv * hidden) (seqs : qd) : qd :=
+Fixpoint run_data (k : kind (F:=Q)) (fb : option qv) (reset : bool) (z : qv) (sh : qv * hidden) (seqs : qd) : qd :=
   match seqs with
   | [] => []
-  | sq :: r => let '(o, f) := run_seq k (if reset then z else fst sh) (snd sh) sq in o :: run_data k reset z f r
+  | sq :: r => let '(o, f) := run_seq k fb (if reset then z else fst sh) (snd sh) sq in o :: run_data k fb reset z f r
   end.
 
 Section Alg.
@@ -51,13 +54,15 @@ Definition din_of (d : qd) : nat := length (hd [] (hd [] d)).
 
 Definition q_run (v : nat) (ins : list qd) : qd :=
   match kind_of v with
-  | NFwd k od => run_data k reset (vzeros od) (match lookup init v with Some s => s | None => vzeros od end, []) (hcats ins)
+  | NFwd k od => run_data k None reset (vzeros od) (match lookup init v with Some s => s | None => vzeros od end, []) (hcats ins)
+  | NFwdFb k od fd => run_data k (Some (vzeros fd)) reset (vzeros od)
+                               (match lookup init v with Some s => s | None => vzeros od end, []) (hcats ins)
   | NRidge _ _ _ => []
   end.
 Definition q_fit (v : nat) (ins : list qd) (y : qd) : option (qm * qv) :=
   match kind_of v with
   | NRidge b lam dout => let X := hcats ins in Ridge.fit qsolve_tot b lam w (din_of X) dout X y
-  | NFwd _ _ => None
+  | _ => None
   end.
 Definition q_pred (v : nat) (p : option (qm * qv)) (ins : list qd) : qd :=
   match kind_of v, p with
@@ -181,3 +186,28 @@ Definition chk_train_explicit (tnodes : list (nat * tkind)) (ups : list nat) (r 
   let st := map (fun p => (assoc_fun (fst p), assoc_fun (snd p))) steps in
   let '(e, o) := explicit_train qv qns (@concat Q) (q_ncall tnodes) (fun _ s => ns_st s) (q_nlearn tnodes) ups r m k (q_env0 tnodes) st in
   mclose o obs_outs && rdo_close (e r) obs_par.
+
+(* 2-3 successive Model.train calls on the same model: every call is Model.train from the state / parameters the
+   previous one left, with the learn_every gate restarting at i = 0 of the call (and `single` decided per call).
+   [expl] = Some (ups, r) when the model is "upstream nodes then the single online readout r": each call is then also
+   compared with the explicit per-timestep loop started from the same environment. *)
+Fixpoint chk_calls (tnodes : list (nat * tkind)) (m : tmodel) (k : nat) (expl : option (list nat * nat)) (e : nat -> qns)
+         (calls : list (list (list (nat * qv) * list (nat * qv)) * list (list qv) * list (nat * (qm * qv * qm)))) : bool :=
+  match calls with
+  | [] => true
+  | (steps, obs_outs, obs_par) :: rest =>
+      let st := map (fun p => (assoc_fun (fst p), assoc_fun (snd p))) steps in
+      let '(e1, o) := model_train qv qns (@concat Q) (q_ncall tnodes) (fun _ s => ns_st s) (q_nlearn tnodes) m k e st in
+      mmclose o obs_outs && forallb (fun p => rdo_close (e1 (fst p)) (snd p)) obs_par
+      && match expl with
+         | Some (ups, r) =>
+             let '(e2, o2) := explicit_train qv qns (@concat Q) (q_ncall tnodes) (fun _ s => ns_st s) (q_nlearn tnodes) ups r m k e st in
+             mclose o2 (map (fun l => hd [] l) obs_outs) && forallb (fun p => rdo_close (e2 (fst p)) (snd p)) obs_par
+         | None => true
+         end
+      && chk_calls tnodes m k expl e1 rest
+  end.
+Definition chk_train_calls (tnodes : list (nat * tkind)) (order : list nat) (es : list (nat * nat)) (online outs : list nat)
+           (k : nat) (expl : option (list nat * nat))
+           (calls : list (list (list (nat * qv) * list (nat * qv)) * list (list qv) * list (nat * (qm * qv * qm)))) : bool :=
+  chk_calls tnodes (to_tmodel order es online outs) k expl (q_env0 tnodes) calls.
